@@ -124,6 +124,29 @@ fn render_case<F: Backend + RenderHints>(
         );
         return;
     }
+    // the sample positions themselves: the documented screen-to-world map (region.rs:
+    // pixel column 0 is x = -1 and x = +1 lies one pixel beyond the right edge; y = +1 lies
+    // one pixel beyond the top edge, so the bottom row is y = -1; the shorter side spans
+    // [-1, 1), the map is centred) followed by world_to_model - written here from the
+    // documentation, compared with what the renderer uses
+    {
+        let sc = 2.0 / (w.min(h) as f64);
+        let s2w = nalgebra::Matrix3::<f64>::new(sc, 0.0, -(w as f64) / 2.0 * sc, 0.0, -sc, ((h as f64) / 2.0 - 1.0) * sc, 0.0, 0.0, 1.0);
+        let want = m.cast::<f64>() * s2w;
+        let got = cfg.mat().cast::<f64>();
+        for r in 0..3 {
+            for c in 0..3 {
+                if !((got[(r, c)] - want[(r, c)]).abs() <= 1e-5 * (1.0 + want[(r, c)].abs())) {
+                    cx.violation(
+                        "screen-to-model matrix differs from the documented mapping",
+                        desc(),
+                        format!("entry ({r},{c}) of RenderConfig::mat() is {}, the documented screen-to-world map followed by world_to_model gives {}", got[(r, c)], want[(r, c)]),
+                    );
+                    return;
+                }
+            }
+        }
+    }
     // reference: per-pixel evaluation at the sample position
     let mat = cfg.mat().cast::<f64>();
     let free = s.free.unwrap_or(0.0) as f64;
@@ -448,7 +471,7 @@ impl Check for C06 {
     }
     fn meta(&self, tier: Tier) -> Meta {
         Meta {
-            rule: "case = one render; full Cartesian product of 13 shapes (circle, rectangle, half-plane, union / intersection / difference, ring, a min-chain of 4 circles that simplifies differently per tile, constants +1 and -1, x*y, a z-dependent sphere slice, a shape with a free variable) x image sizes (w,h) x tile-size chains x 7 view transforms (identity, scale, translation, 90-degree rotation, anisotropic + shear, and at z = 0 the homogeneous bottom rows (0,0,2) and (1/8,-1/16,1)) x (z, pixel-perfect, threads) in {(0,off,none),(0.25,off,pool),(0,on,none),(0.25,on,pool)} x backend {VM, JIT}; plus every shape with the backend's DEFAULT tile sizes on images larger than one root tile (130x70, 33x257; thorough also 129x129, 256x128, 200x131) with no pool / stand-in pool / ThreadPool::Global; oracle: for every pixel (i,j) the f64 value of the program at cfg.mat()*(i,j,1): decidable pixels (|v| > 2e-5*(1+largest intermediate)) must satisfy inside() <=> v < 0; in pixel-perfect mode every pixel must be a Value within 2e-4*(1+magnitude) of v; image dimensions must equal the request; plus (round 10) NaN payloads: 3 shapes passing a bound variable through x every NaN bit pattern whose mantissa is an 8-bit window at any offset (quiet bit set / clear, bit 0 set / clear, either sign: 32 640 patterns) x pixel-perfect on / off x backend - every pixel must be outside and, in pixel-perfect mode, carry a NaN value (the image format NaN-boxes fill records); non-trivial = every render".into(),
+            rule: "case = one render; full Cartesian product of 13 shapes (circle, rectangle, half-plane, union / intersection / difference, ring, a min-chain of 4 circles that simplifies differently per tile, constants +1 and -1, x*y, a z-dependent sphere slice, a shape with a free variable) x image sizes (w,h) x tile-size chains x 7 view transforms (identity, scale, translation, 90-degree rotation, anisotropic + shear, and at z = 0 the homogeneous bottom rows (0,0,2) and (1/8,-1/16,1)) x (z, pixel-perfect, threads) in {(0,off,none),(0.25,off,pool),(0,on,none),(0.25,on,pool)} x backend {VM, JIT}; plus every shape with the backend's DEFAULT tile sizes on images larger than one root tile (130x70, 33x257; thorough also 129x129, 256x128, 200x131) with no pool / stand-in pool / ThreadPool::Global; oracle: cfg.mat() must equal the DOCUMENTED screen-to-world map (written independently from region.rs' documentation) followed by world_to_model; for every pixel (i,j) the f64 value of the program at cfg.mat()*(i,j,1): decidable pixels (|v| > 2e-5*(1+largest intermediate)) must satisfy inside() <=> v < 0; in pixel-perfect mode every pixel must be a Value within 2e-4*(1+magnitude) of v; image dimensions must equal the request; plus (round 10) NaN payloads: 3 shapes passing a bound variable through x every NaN bit pattern whose mantissa is an 8-bit window at any offset (quiet bit set / clear, bit 0 set / clear, either sign: 32 640 patterns) x pixel-perfect on / off x backend - every pixel must be outside and, in pixel-perfect mode, carry a NaN value (the image format NaN-boxes fill records); non-trivial = every render".into(),
             bounds: match tier {
                 Tier::Quick => "sizes {1,3,4,5,8,9,17}^2, tile chains [4],[8,4],[8,2],[16,4]; JIT on every other size pair".into(),
                 Tier::Thorough => "sizes {1,2,3,4,5,7,8,9,15,16,17,20,33}^2, all 15 valid chains over {16,8,4,2}".into(),
